@@ -9,9 +9,12 @@ pub struct C13;
 #[derive(Serialize, Deserialize, Clone, Debug)]
 pub enum C13Case {
     /// files created for `t` (all three: pos 3; only htx/key/val: pos 0/1/2), the rest for `u`; opened as `u`
-    Pair { t: Kt, u: Kt, pos: u8 },
+    /// (`empty`: the maps were only created, never updated)
+    Pair { t: Kt, u: Kt, pos: u8, #[serde(default)] empty: bool },
     /// signature byte `byte` (0..16) of file `file` (0 htx, 1 key, 2 val) of a `kt` map replaced by each of `values`
-    Mut { kt: Kt, file: u8, byte: u8, values: Vec<u8> },
+    Mut { kt: Kt, file: u8, byte: u8, values: Vec<u8>, #[serde(default)] empty: bool },
+    /// file `file` of a `kt` map replaced by `len` bytes of a foreign format
+    Foreign { kt: Kt, file: u8, len: u32, empty: bool },
 }
 
 fn is_d7(t: Kt, u: Kt) -> bool {
@@ -73,23 +76,33 @@ fn cases(tier: Tier) -> (Vec<C13Case>, u64) {
                 continue;
             }
             for pos in 0..4u8 {
-                if is_d7(t, u) {
-                    excluded += 1;
-                    continue;
+                for empty in [false, true] {
+                    if is_d7(t, u) {
+                        excluded += 1;
+                        continue;
+                    }
+                    c.push(C13Case::Pair { t, u, pos, empty });
                 }
-                c.push(C13Case::Pair { t, u, pos });
             }
         }
     }
     for kt in Kt::ALL {
         for file in 0..3u8 {
             for byte in 0..16u8 {
-                c.push(C13Case::Mut {
-                    kt,
-                    file,
-                    byte,
-                    values: mutation_values(tier, sig_byte(kt, file, byte)),
-                });
+                for empty in [false, true] {
+                    c.push(C13Case::Mut {
+                        kt,
+                        file,
+                        byte,
+                        values: mutation_values(tier, sig_byte(kt, file, byte)),
+                        empty,
+                    });
+                }
+            }
+            for len in [1u32, 8, 16, 100, 127, 128, 191, 192, 193, 4096] {
+                for empty in [false, true] {
+                    c.push(C13Case::Foreign { kt, file, len, empty });
+                }
             }
         }
     }
@@ -105,18 +118,20 @@ fn some_key(kt: Kt, i: u64) -> Vec<u8> {
 }
 
 /// build a small map of type kt (name "x") and return its three files
-fn base_image(kt: Kt, w: &WCtx) -> Result<[Vec<u8>; 3], Failure> {
+fn base_image(kt: Kt, empty: bool, w: &WCtx) -> Result<[Vec<u8>; 3], Failure> {
     let d = w.fresh_dir();
     let r = (|| {
         let db = abyssiniandb::open_file(&d).map_err(|e| Failure::new("infra", None, format!("open_file: {e}")))?;
         let mut m = open_map(&db, "x", kt, &Params::plain(Buckets::BucketsSize(8)))
             .map_err(|e| Failure::new("infra", None, format!("open: {e}")))?;
-        for i in 0..5u64 {
-            m.put(&some_key(kt, i), format!("value {i}").as_bytes())
-                .map_err(|e| Failure::new("infra", None, format!("put: {e}")))?;
+        if !empty {
+            for i in 0..5u64 {
+                m.put(&some_key(kt, i), format!("value {i}").as_bytes())
+                    .map_err(|e| Failure::new("infra", None, format!("put: {e}")))?;
+            }
+            m.delete(&some_key(kt, 3))
+                .map_err(|e| Failure::new("infra", None, format!("delete: {e}")))?;
         }
-        m.delete(&some_key(kt, 3))
-            .map_err(|e| Failure::new("infra", None, format!("delete: {e}")))?;
         drop(m);
         drop(db);
         read_files(&d, "x").map_err(|e| Failure::new("infra", None, format!("read: {e}")))
@@ -180,9 +195,9 @@ fn attempt(files: &[Vec<u8>; 3], as_kt: Kt, w: &WCtx, what: &str) -> Result<(), 
 fn run_c13(c: &C13Case, w: &WCtx) -> Result<(Report, u64), Failure> {
     let mut rep = Report::default();
     match c {
-        C13Case::Pair { t, u, pos } => {
-            let ft = base_image(*t, w)?;
-            let fu = base_image(*u, w)?;
+        C13Case::Pair { t, u, pos, empty } => {
+            let ft = base_image(*t, *empty, w)?;
+            let fu = base_image(*u, *empty, w)?;
             let mut files = fu.clone();
             if *pos == 3 {
                 files = ft.clone();
@@ -190,8 +205,9 @@ fn run_c13(c: &C13Case, w: &WCtx) -> Result<(Report, u64), Failure> {
                 files[*pos as usize] = ft[*pos as usize].clone();
             }
             let what = format!(
-                "{} of a {} map, rest of a {} map, opened as {}",
+                "{} of a{} {} map, rest of a {} map, opened as {}",
                 ["only the .htx file", "only the .key file", "only the .val file", "all three files"][*pos as usize],
+                if *empty { "n empty (created-only)" } else { "" },
                 t.name(),
                 u.name(),
                 u.name()
@@ -200,8 +216,28 @@ fn run_c13(c: &C13Case, w: &WCtx) -> Result<(Report, u64), Failure> {
             rep.bump("type_pair_cases");
             Ok((rep, 1))
         }
-        C13Case::Mut { kt, file, byte, values } => {
-            let base = base_image(*kt, w)?;
+        C13Case::Foreign { kt, file, len, empty } => {
+            let mut files = base_image(*kt, *empty, w)?;
+            let mut foreign = b"SQLite format 3\0".to_vec();
+            while foreign.len() < *len as usize {
+                let b = (foreign.len() * 7 + 13) as u8;
+                foreign.push(b);
+            }
+            foreign.truncate(*len as usize);
+            files[*file as usize] = foreign;
+            let what = format!(
+                "{}{} map whose .{} file is replaced by {} bytes of a foreign format",
+                if *empty { "empty " } else { "" },
+                kt.name(),
+                ["htx", "key", "val"][*file as usize],
+                len
+            );
+            attempt(&files, *kt, w, &what)?;
+            rep.bump("foreign_file_cases");
+            Ok((rep, 1))
+        }
+        C13Case::Mut { kt, file, byte, values, empty } => {
+            let base = base_image(*kt, *empty, w)?;
             let mut n = 0;
             for &v in values {
                 let mut files = base.clone();
@@ -211,7 +247,8 @@ fn run_c13(c: &C13Case, w: &WCtx) -> Result<(Report, u64), Failure> {
                 }
                 files[*file as usize][*byte as usize] = v;
                 let what = format!(
-                    "{} map, signature byte {} of the .{} file changed from {:#04x} to {:#04x}",
+                    "{}{} map, signature byte {} of the .{} file changed from {:#04x} to {:#04x}",
+                    if *empty { "empty " } else { "" },
                     kt.name(),
                     byte,
                     ["htx", "key", "val"][*file as usize],
@@ -232,7 +269,7 @@ impl Prop for C13 {
         "C13"
     }
     fn rule(&self) -> String {
-        "enumeration: (1) every ordered pair (T,U) of distinct key types x four file positions (all three files written for T, or exactly one of .htx/.key/.val written for T and the rest for U), opened as U; (2) for every key type x each of the three files x each of the 16 signature bytes (8 format magic + 8 type signature): the byte replaced by every other value (quick: +-1, case flip, every single-bit flip, 0x00, 0xFF and letters used by other signatures), opened as the same type. Oracle: the open returns Err or panics (never Ok), and afterwards the three files are byte-identical to what was written. Every case is distinct by construction and non-trivial (each one is a different foreign or damaged header). The ordered pairs (u64,vu64) and (vu64,u64) are a known finding (D7: shared type signature) and are excluded: 8 cases, counted in excluded_draws."
+        "enumeration: (1) every ordered pair (T,U) of distinct key types x four file positions (all three files written for T, or exactly one of .htx/.key/.val written for T and the rest for U), opened as U; each for populated maps and for maps that were only created; (2) for every key type x each of the three files x {populated, created-only} x each of the 16 signature bytes (8 format magic + 8 type signature): the byte replaced by every other value (quick: +-1, case flip, every single-bit flip, 0x00, 0xFF and letters used by other signatures), opened as the same type; (3) one file replaced by 1..4096 bytes of a foreign format. Oracle: the open returns Err or panics (never Ok), and afterwards the three files are byte-identical to what was written. Every case is distinct by construction and non-trivial (each one is a different foreign or damaged header). The ordered pairs (u64,vu64) and (vu64,u64) are a known finding (D7: shared type signature) and are excluded: 16 cases, counted in excluded_draws."
             .to_string()
     }
     fn n_cases(&self, tier: Tier) -> u64 {
@@ -256,10 +293,10 @@ impl Prop for C13 {
                 out.labels = rep.labels;
                 // each evaluated (case, value) is distinct
                 match c {
-                    C13Case::Pair { .. } => out.nontrivial.push(digest_of(c)),
+                    C13Case::Pair { .. } | C13Case::Foreign { .. } => out.nontrivial.push(digest_of(c)),
                     C13Case::Mut { values, .. } => {
                         for v in values {
-                            out.nontrivial.push(digest_of(&(c, v)) ^ *v as u64);
+                            out.nontrivial.push(digest_of(&(c, v)));
                         }
                     }
                 }
@@ -271,7 +308,7 @@ impl Prop for C13 {
                 out.evals = 1;
                 // narrow to the failing value
                 let mut case = serde_json::to_value(c).unwrap();
-                if let C13Case::Mut { kt, file, byte, .. } = c {
+                if let C13Case::Mut { kt, file, byte, empty, .. } = c {
                     if let Some(v) = f
                         .msg
                         .split(" to 0x")
@@ -283,6 +320,7 @@ impl Prop for C13 {
                             file: *file,
                             byte: *byte,
                             values: vec![v],
+                            empty: *empty,
                         })
                         .unwrap();
                     }
